@@ -66,7 +66,7 @@ class Report:
             construct = norm(construct)
         if not isinstance(construct, str):
             construct = str(construct)
-        line = getattr(node, "lineno", None) if node is not None else None
+        line = getattr(node, "src_lineno", getattr(node, "lineno", None)) if node is not None else None
         oid = self.alias.get(oid, oid)
         rec = {
             "obligation": oid,
